@@ -40,7 +40,7 @@ git -C /repo apply "$BUG/patch.diff" || exit 3
 declare -A RES
 for p in C05 C19 C20; do
   out=$(cd $VERIF && ./check $p quick 2>&1); rc=$?
-  inv=$(echo "$out" | grep -E '^(violated invariant|regression replay)' | head -1)
+  inv=$(echo "$out" | grep -E '^(violated invariant|regression replay .* fails again)' | head -1)
   RES[$p]="$rc|$inv"
   say "check $p quick: exit $rc $inv"
 done
@@ -48,7 +48,7 @@ deep=""
 rc_main="${RES[$PROP]%%|*}"
 if [ "$rc_main" = 0 ] && [ -n "$DEEP" ]; then
   out=$(cd $VERIF && ./check $PROP thorough 2>&1); rc=$?
-  inv=$(echo "$out" | grep -E '^(violated invariant|regression replay)' | head -1)
+  inv=$(echo "$out" | grep -E '^(violated invariant|regression replay .* fails again)' | head -1)
   deep="$rc|$inv"
   say "check $PROP thorough: exit $rc $inv"
 fi
